@@ -1,6 +1,6 @@
 (* Executable glue for the correspondence of the value-level core (Gen + Exec) and the
    reference semantics (Valid) with generated programs. *)
-From GJS Require Import Base Bounds IntSize Regex Schema GoType Ident Gen Exec Valid WfP.
+From GJS Require Import Base Bounds IntSize Regex Schema GoType Render Ident Gen Exec Valid WfP.
 
 (* the zero value of some Go type, whatever the type (the model's zero value of a referenced type is opaque: GNil) *)
 Fixpoint is_zero_val (fuel : nat) (v : gval) {struct fuel} : bool :=
@@ -106,6 +106,26 @@ Definition case_wf (c : ccase) : bool :=
   | _ => true
   end.
 Definition all_not_wf (cs : list (N * ccase)) : list N := map fst (filter (fun ic => negb (case_wf (snd ic))) cs).
+
+(* the static tie: the declarations of the whole program as canonical text (Model/Render.v) *)
+Definition decl_name (idf : str -> str) (ds : list (str * gty)) (d : str) : str :=
+  match lookup d ds with
+  | Some (TStruct (c :: nm) _ _) => c :: nm
+  | Some (TNamed nm _ _) => nm
+  | Some (TEnum nm _ _ _) => nm
+  | Some (TRef d') => idf d'
+  | _ => idf d
+  end.
+Definition case_decls (c : ccase) : str :=
+  match model_prog c with
+  | Done p =>
+      let idf := identifierize U (cc_caps c) in
+      let rn := decl_name idf (p_defs p) in
+      flat_map (fun l => l ++ [10]%N)
+        (flat_map (fun d => decls rn (snd d)) (p_defs p) ++ match p_root p with Some rt => decls rn rt | None => [] end)
+  | _ => []
+  end.
+Definition all_decls (cs : list (N * ccase)) : list (N * str) := map (fun ic => (fst ic, case_decls (snd ic))) cs.
 
 Definition all_mismatches (cs : list (N * ccase)) : list (N * list (N * N)) :=
   flat_map (fun ic => match case_mismatches (snd ic) with [] => [] | l => [(fst ic, l)] end) cs.
